@@ -11,7 +11,7 @@ BOUND = ("x86-64 ELF module of 4 code blocks (target block kinds plain/jmp/ret/c
 SPEC = {
     "C01": dict(vals=[VAL.c01_bytes], clauses=["C01/bytes-are-the-listing-edit", "C01/section-contiguous"], space={}),
     "C02": dict(vals=[VAL.c02_labels], clauses=["C02/label-designates-the-same-listing-position", "C02/patch-label-designates-its-position-in-the-patch",
-                                                 "C02/no-dangling-referent", "C02/retarget_to_proxy-makes-labels-external", "C02/label-survives"], space={}),
+                                                 "C02/no-dangling-referent", "C02/retarget_to_proxy-makes-labels-external", "C02/label-survives"], space=dict(bare=(False, True))),
     "C03": dict(vals=[VAL.c03_cfg], clauses=["C03/falls-through-to-the-physically-next-block", "C03/no-fallthrough-after-ret-or-jmp",
                                               "C03/branch-edge-leads-to-its-target-label", "C03/no-control-transfer-buried-mid-block",
                                               "C03/returns-lead-to-the-return-sites-of-the-callers", "C03/no-edge-to-a-removed-block"], space=dict(callee2=(False, True))),
@@ -22,7 +22,7 @@ SPEC = {
     "C05": dict(vals=[VAL.c05_closed], clauses=["C05/cfg-endpoints-in-module", "C05/symbol-referents-in-module", "C05/aux-data-nodes-in-module",
                                                  "C05/blocks-inside-their-interval", "C05/every-block-has-an-address",
                                                  "C05/zero-sized-blocks-only-in-documented-cases", "C05/protobuf-round-trip-unchanged", "C05/serialisable"],
-                space=dict(anns=("none", "block"))),
+                space=dict(anns=("none", "block"), bare=(False, True))),
     "C06": dict(vals=[VAL.c06_functions], clauses=["C06/surviving-instruction-keeps-its-function", "C06/inserted-code-belongs-to-the-function-of-its-block",
                                                     "C06/entries-follow-the-code", "C06/function-without-blocks-disappears"], space=dict(funcs=(True,))),
     "C08": dict(vals=[VAL.c08_cfi], clauses=["C08/directives-still-evaluate-cleanly", "C08/instruction-inside-a-procedure-iff-it-was",
